@@ -69,6 +69,17 @@ def _apply_regmask(text: str, reg: str, region: str) -> str:
     return text[:i] + mk + new + text[j:]
 
 
+def _apply_exact(text: str, clause: str, region: str) -> str:
+    """region-exactness twin: the clause is replaced by  REGION ==> !CLAUSE  (inside the region it always fails)"""
+    mk = f"/*[{clause}*/"
+    i = text.find(mk)
+    if i < 0:
+        return None
+    j = text.index("/*]*/", i)
+    expr = text[i + len(mk):j]
+    return text[:i] + f"!({region}) || !({expr})" + text[j + len("/*]*/"):]
+
+
 def _twin_body(body: str, witness: Dict[str, int]) -> str:
     lines = body.split("\n")
     last = max(i for i, l in enumerate(lines) if "kani::any()" in l)
@@ -179,6 +190,11 @@ class KaniBuild:
                         emit_h(tname, _twin_body(hb, f["witness"]))
                         self.units[tname] = Unit(tname, primary_props(c.props, "L1"), c.klass, [f["clause"]], "harness", c.fn, file, c.replay,
                                                  group="L1", twin_of=name, finding=f)
+                        xb = _apply_exact(hb, f["clause"], f["region"])
+                        if xb:
+                            emit_h(f"kx_{name}_{k}", xb + '\n        kani::cover!(true, "reachable");')
+                            self.units[f"kx_{name}_{k}"] = Unit(f"kx_{name}_{k}", primary_props(c.props, "L1"), c.klass, [f["clause"]], "harness", c.fn, file,
+                                                                c.replay, group="L1", twin_of=name, finding=dict(f, exact=True))
                     continue
                 remember(name, kani_l1.attrs(c))
                 an.attrs_above(file, c.fn, kani_l1.attrs(c))
@@ -220,6 +236,11 @@ class KaniBuild:
                     emit(tname, _twin_body(h.body.rstrip("\n"), f["witness"]))
                     self.units[tname] = Unit(tname, primary_props(h.props, "L0"), h.klass, [f["clause"]], "harness", ", ".join(h.fns), file,
                                              h.replay, group="L0", twin_of=h.name, finding=f)
+                    xb = _apply_exact(h.body.rstrip("\n"), f["clause"], f["region"])
+                    if xb:
+                        emit(f"kx_{h.name}_{k}", xb + '\n        kani::cover!(true, "reachable");')
+                        self.units[f"kx_{h.name}_{k}"] = Unit(f"kx_{h.name}_{k}", primary_props(h.props, "L0"), h.klass, [f["clause"]], "harness",
+                                                              ", ".join(h.fns), file, h.replay, group="L0", twin_of=h.name, finding=dict(f, exact=True))
             mod.append("}")
             an.append(file, "\n".join(mod) + "\n")
 
@@ -250,6 +271,11 @@ class KaniBuild:
                 emit(tname, _twin_body(h.body.rstrip("\n"), f["witness"]))
                 self.units[tname] = Unit(tname, primary_props(h.props, h.group), h.klass, [f["clause"]], "production", h.sig, irs, h.replay,
                                          group=h.group, twin_of=h.name, finding=f)
+                xb = _apply_exact(h.body.rstrip("\n"), f["clause"], f["region"])
+                if xb:
+                    emit(f"kx_{h.name}_{k}", xb)
+                    self.units[f"kx_{h.name}_{k}"] = Unit(f"kx_{h.name}_{k}", primary_props(h.props, h.group), h.klass, [f["clause"]], "production", h.sig,
+                                                          irs, h.replay, group=h.group, twin_of=h.name, finding=dict(f, exact=True))
         # vacuity probe: must be refuted
         mod.append("    #[kani::proof]\n    fn vacuity_must_fail() {\n        let x: u8 = kani::any();\n"
                    "        assert!(x != 0x5A, \"vacuity.must_fail\");\n    }")
